@@ -40,7 +40,7 @@ m = {
     "engines": [{"name": "symgo", "path": "engine", "serves_properties": sorted(claimed),
                  "kind_free_text": "SSA-to-SMT bounded symbolic executor for Go written for this task (go/packages + go/ssa front end from x/tools v0.29.0, z3 4.8.12 back end over a pipe, cvc5/z3-new cross-check in the thorough tier); harness = ordinary Go with vp.* nondet/assume/assert intrinsics; counterexamples and reachability witnesses are replayed against the natively compiled real code"}],
     "checks": checks,
-    "notes": "See DESIGN.md. KNOWN_FINDINGS.json lists genuine defects (by obligation label = input region) that are recorded rather than repaired.",
+    "notes": "See DESIGN.md (section 0 first). KNOWN_FINDINGS.json lists genuine defects (by obligation label = input region) that are recorded rather than repaired (C13: 8 labels, C16: 2, C06: 4) and, under \"fixed\", the ten defects repaired in /repo by unguarded fix: commits 483ffa6 4cc0add b0e3c09 a4d88ba 79c9b4a 44acb7a 8681572 bfb806d 4c8cee9 986b735. No hook commits exist. seeded/README.md lists 42 independently seeded changes and the obligations that catch them. Checks of different properties may run concurrently (own scratch directories); VERIF_REPO=<dir> points a check at a scratch copy of the repository without touching evidence/.",
     "not_applicable": [{"property_id": p["id"], "reason": na.get(p["id"], "check not built yet (work in progress, see DESIGN.md section 10)")} for p in props if p["id"] not in claimed],
 }
 json.dump(m, open(os.path.join(V, "MANIFEST.json"), "w"), indent=1)
